@@ -30,6 +30,7 @@ func realMain() (code int) {
 	repo := fs.String("repo", "/repo", "repository to analyse")
 	verif := fs.String("verif", "", "verif dir (default: parent of the executable's dir)")
 	arch := fs.String("arch", "amd64", "GOARCH")
+	noWrite := fs.Bool("no-write", false, "do not write evidence (used by positive controls)")
 	if len(os.Args) < 2 {
 		fmt.Println("usage: verifcheck <Cxx|list> [--tier quick|thorough] [--repo DIR]")
 		return 2
@@ -77,6 +78,22 @@ func realMain() (code int) {
 	}()
 	prog := loadProgram(*repo, *arch)
 	rep := newReport(id, def.level, *tier, prog)
+	rep.NoWrite = *noWrite
 	def.fn(prog, rep)
+	if *tier == "thorough" && !*noWrite {
+		results, ok := runControls(id, *repo, vdir)
+		rep.Extra["positive_controls"] = results
+		n := 0
+		for _, cr := range results {
+			fmt.Printf("  control %s: %s %s\n", cr.ID, cr.Status, cr.Detail)
+			if cr.Status == "detected" {
+				n++
+			}
+		}
+		rep.Extra["positive_controls_detected"] = n
+		if !ok {
+			rep.Broken = append(rep.Broken, "a positive control was not detected (the checker is broken, not the repository)")
+		}
+	}
 	return rep.Finish(vdir, seed)
 }
